@@ -191,13 +191,18 @@ def families(ctx):
 
 
 def run(ctx):
-    for name, fn in families(ctx):
-        ctx.guarded(name, fn)
-    ctx.bounds += ['stores of <= 3 entities plus one parent id without a record (thorough: also 4 entities), EVERY possible parent link among them symbolic: 2^(N*(N+1)) graphs per size decided in one query; '
+    from . import c04_store
+    ctx.run_families(c04_store.families(ctx) + families(ctx))
+    ctx.bounds += ['store edits: ONE remove / add / upsert of one entity with arbitrary parents, from ANY closed acyclic store of <= 3 entities (+ one parent id without a record) => edit histories of any length over stores of that size',
+                   'stores of <= 3 entities plus one parent id without a record (thorough: also 4 entities), EVERY possible parent link among them symbolic: 2^(N*(N+1)) graphs per size decided in one query; '
                    'larger stores are outside the claim', 'recursion of cyclic_tc_internal / add_ancestors bounded by the number of entities (never reached: the executor aborts otherwise)']
     ctx.assumptions += ['std HashMap / HashSet / Vec / Range and slice::sort_by modelled on concrete keys (mir2smt/containers.py); maps and sets iterate in insertion order - one of the orders a hash container may produce, '
                         'so order-DEPENDENT bugs that need another order are outside the claim (the algorithms are specified order-independently)',
                         'a node is (id, row of edge bits); TCNode::{get_key, out_edges, has_edge_to, add_edge_to} are the four obvious operations on the row (for Entity: ancestors = parents + indirect ancestors)',
-                        'node ids are machine integers: equality and hashing of EntityUID are outside the claim']
-    return ctx.finish('Solver-decided (bounded) correctness of the transitive-closure algorithms executed from the MIR of transitive_closure.rs on symbolic graphs: after compute_tc the ancestor relation is exactly reachability '
-                      'through parent links (ids without a record are leaves), with enforce_dag a cycle is reported iff one exists; enforce_tc_and_dag accepts exactly the transitively closed acyclic stores.')
+                        'node ids are machine integers: equality and hashing of EntityUID are outside the claim',
+                        'store edits run Entities::{remove,add,upsert}_entities, repair_tc, add_ancestors, enforce_dag_from_tc_for and the real Entity / TCNode-for-Arc<Entity> method bodies; the two HashSet<EntityUID> fields of an entity '
+                        'are sets with symbolic membership; pre-state = canonical closed store (indirect ancestors = reachable and not a direct parent; the public constructors give new entities parents only); '
+                        'update_entity_map is modelled (insert / overwrite / duplicate); batches of several entities per call, remove of several ids per call and TCComputation::{Assume,Enforce}AlreadyComputed through the edit entry points are outside']
+    return ctx.finish('Solver-decided (bounded) correctness of the transitive-closure algorithms executed from the MIR of transitive_closure.rs and entities.rs on symbolic graphs: after compute_tc the ancestor relation is exactly reachability '
+                      'through parent links (ids without a record are leaves), with enforce_dag a cycle is reported iff one exists; enforce_tc_and_dag accepts exactly the transitively closed acyclic stores; and one remove / add / upsert '
+                      'from any closed acyclic store leaves ancestors = reachability through the parent links then in the store (no ancestor survives the loss of the only path that justified it), rejecting exactly the edits that create a cycle.')
